@@ -19,8 +19,8 @@ func init() {
 			"(R1) types.DateString builds the string from a constant format whose numeric verbs are zero padded with the widths ISO 32000 7.9.4 fixes — year 4, month, day, hour, minute, second 2, offset hours and minutes 2 (or uses time.Format with the layout 20060102150405): a narrower year shifts every following field for years below 1000. " +
 			"(R2) in types.parseTimezone the sign of the offset reaches both results: if the hours returned on some path are negated (× −1) then the minutes returned on that path are negated as well — FixedZone is fed hours·3600 + minutes·60, so −03'30' must not become −3 h + 30 min. " +
 			"(R3) the strict field parsers compare their field with exactly the bounds of the date grammar: month 1..12, day 1..31, hour ≤ 23, minute ≤ 59, second ≤ 59, offset minutes ≤ 59 (comparisons normalised to cuts as in C13); the offset hours are not cut anywhere inside (−24, 23) in parseTimezone / parseTimezoneHours. " +
-			"(R4) DateString decides the sign on the zone offset divided by at most 60 (whole minutes), not on its hour part, which is 0 for −00:30; (R5) date.go either has no leap-year arithmetic of its own (month lengths come from time.Date) or its rule has all three clauses %4, %100, %400. NOT decided: calendar arithmetic (days per month is delegated to time.Date), that every instant in range round-trips (value-level), relaxed-mode repairs, out-of-spec date forms.",
-		Rules:       []string{"C14.R1 TABLE: zero-padded field widths of the date writer", "C14.R2 siblings: the offset's sign is applied to hours and minutes alike", "C14.R3 TABLE: field bounds of the strict date parser", "C14.R4 shape: the written sign is decided on the whole offset", "C14.R5 TABLE: no partial hand-written leap-year rule"},
+			"(R4) DateString decides the sign on the zone offset divided by at most 60 (whole minutes), not on its hour part, which is 0 for −00:30; (R5) date.go either has no leap-year arithmetic of its own (month lengths come from time.Date) or its rule has all three clauses %4, %100, %400. (R6) every strconv parse in date.go is base 10 (Atoi or constant base 10); (R7) the year … second arguments of DateString's format call are t.Year() … t.Second() or the matching results of t.Date()/t.Clock(). NOT decided: calendar arithmetic (days per month is delegated to time.Date), that every instant in range round-trips (value-level), relaxed-mode repairs, out-of-spec date forms.",
+		Rules:       []string{"C14.R1 TABLE: zero-padded field widths of the date writer", "C14.R2 siblings: the offset's sign is applied to hours and minutes alike", "C14.R3 TABLE: field bounds of the strict date parser", "C14.R4 shape: the written sign is decided on the whole offset", "C14.R5 TABLE: no partial hand-written leap-year rule", "C14.R6 TABLE: every number parse of date.go is decimal", "C14.R7 source: the six calendar fields DateString formats are package time's accessors of the time being written"},
 		Assumptions: []string{"package time is correct"},
 		Level:       "other",
 		Technique:   "format-literal and constant table agreement; value-source tracing of the two offset results",
@@ -104,6 +104,8 @@ func runC14(c *Ctx) {
 	r.MinInst["C14.R4"] = 1
 	r.MinInst["C14.R5"] = 1
 	checkC14Extras(c)
+	r.MinInst["C14.R6"] = 6
+	checkC14Round4(c)
 	// ---- R1
 	if fn := p.Func("pkg/pdfcpu/types.DateString"); fn == nil {
 		r.Bad("C14.R1", "pkg/pdfcpu/types.DateString", "anchor", "", "UNRESOLVED-ANCHOR")
@@ -415,5 +417,161 @@ func checkC14Extras(c *Ctx) {
 		}
 		sort.Strings(have)
 		r.Bad("C14.R5", "pkg/pdfcpu/types/date.go", "leap years", "", "a hand-written leap-year rule lacks one of the clauses y%4, y%100, y%400 (found "+strings.Join(have, "; ")+"): 29 February of such a year is written by DateString and rejected (or accepted wrongly) by the strict parser")
+	}
+}
+
+// ---------------- C14.R6 / R7 (round 4 seeds C14-E, C14-F) ----------------
+
+// variadicByIndex: index -> value stored into the implicit slice of a variadic call.
+func variadicByIndex(call *ssa.Call) map[int64]ssa.Value {
+	out := map[int64]ssa.Value{}
+	args := call.Call.Args
+	if len(args) == 0 {
+		return out
+	}
+	sl, ok := args[len(args)-1].(*ssa.Slice)
+	if !ok {
+		return out
+	}
+	al, ok := sl.X.(*ssa.Alloc)
+	if !ok {
+		return out
+	}
+	for _, rf := range *al.Referrers() {
+		ia, ok := rf.(*ssa.IndexAddr)
+		if !ok {
+			continue
+		}
+		k, ok := constInt(ia.Index)
+		if !ok {
+			continue
+		}
+		for _, rr := range *ia.Referrers() {
+			if st, ok := rr.(*ssa.Store); ok && st.Addr == ssa.Value(ia) {
+				out[k] = st.Val
+			}
+		}
+	}
+	return out
+}
+
+func checkC14Round4(c *Ctx) {
+	p, r := c.P, c.R
+	// R6: the fields of a date are decimal. Every number the functions of date.go parse is parsed in base 10:
+	// strconv.Atoi, or ParseInt/ParseUint with the constant base 10. Base 0 reads the zero-padded fields the writer
+	// produces ("0123", "08") as octal.
+	n := 0
+	for _, fn := range p.Funcs {
+		if !isSubject(fn) || !strings.HasSuffix(p.File(fn.Pos()), "pkg/pdfcpu/types/date.go") {
+			continue
+		}
+		k := 0
+		eachInstr(fn, func(_ *ssa.BasicBlock, _ int, i ssa.Instruction) {
+			call, ok := i.(*ssa.Call)
+			if !ok {
+				return
+			}
+			_, ref := callRef(call)
+			switch ref {
+			case "strconv.Atoi":
+				k++
+				n++
+				r.OK("C14.R6", FuncID(fn), fmt.Sprintf("number parse#%d", k), p.Pos(call.Pos()), "strconv.Atoi (decimal)", true)
+			case "strconv.ParseInt", "strconv.ParseUint":
+				k++
+				n++
+				if b, ok := constInt(call.Call.Args[1]); ok && b == 10 {
+					r.OK("C14.R6", FuncID(fn), fmt.Sprintf("number parse#%d", k), p.Pos(call.Pos()), ref+" with base 10", true)
+				} else {
+					r.Bad("C14.R6", FuncID(fn), fmt.Sprintf("number parse#%d", k), p.Pos(call.Pos()), ref+" is not called with the constant base 10: with base 0 a zero-padded field is read as octal (year 0123 becomes 83, 0008 is rejected), so dates the writer produces do not read back")
+				}
+			}
+		})
+	}
+	if n == 0 {
+		r.Bad("C14.R6", "pkg/pdfcpu/types/date.go", "anchor", "", "UNRESOLVED-ANCHOR: no strconv number parse in date.go")
+	}
+	// R7: the six calendar fields DateString formats are what package time says they are: results of
+	// t.Year/Month/Day/Hour/Minute/Second or of t.Date()/t.Clock() at the matching position, for the parameter t.
+	// Hand-written arithmetic on Unix seconds is not decided (and is wrong before 1970 with Go's truncating %).
+	fn := p.Func("pkg/pdfcpu/types.DateString")
+	if fn == nil || len(fn.Params) != 1 {
+		r.Bad("C14.R7", "pkg/pdfcpu/types.DateString", "anchor", "", "UNRESOLVED-ANCHOR")
+		return
+	}
+	t := fn.Params[0]
+	onT := func(call *ssa.Call) bool {
+		if len(call.Call.Args) == 0 {
+			return false
+		}
+		for _, l := range valueLeaves(call.Call.Args[0]) {
+			if l == ssa.Value(t) {
+				return true
+			}
+			if ld, ok := l.(*ssa.UnOp); ok && ld.Op == token.MUL {
+				if al, ok := ld.X.(*ssa.Alloc); ok {
+					// the spilled parameter
+					for _, rf := range *al.Referrers() {
+						if st, ok := rf.(*ssa.Store); ok && st.Val == ssa.Value(t) {
+							return true
+						}
+					}
+				}
+			}
+		}
+		return false
+	}
+	names := []string{"Year", "Month", "Day", "Hour", "Minute", "Second"}
+	decided := false
+	eachInstr(fn, func(_ *ssa.BasicBlock, _ int, i ssa.Instruction) {
+		call, ok := i.(*ssa.Call)
+		if !ok {
+			return
+		}
+		if _, ref := callRef(call); ref != "fmt.Sprintf" {
+			return
+		}
+		args := variadicByIndex(call)
+		if len(args) < 6 {
+			return
+		}
+		decided = true
+		for k := 0; k < 6; k++ {
+			v := args[int64(k)]
+			for {
+				switch x := v.(type) {
+				case *ssa.MakeInterface:
+					v = x.X
+					continue
+				case *ssa.Convert:
+					v = x.X
+					continue
+				case *ssa.ChangeType:
+					v = x.X
+					continue
+				}
+				break
+			}
+			construct := "field " + names[k]
+			okField := false
+			switch x := v.(type) {
+			case *ssa.Call:
+				_, ref := callRef(x)
+				okField = strings.HasSuffix(ref, "time.Time."+names[k]) && onT(x)
+			case *ssa.Extract:
+				if cl, ok := x.Tuple.(*ssa.Call); ok && onT(cl) {
+					_, ref := callRef(cl)
+					okField = (strings.HasSuffix(ref, "time.Time.Date") && k < 3 && x.Index == k) || (strings.HasSuffix(ref, "time.Time.Clock") && k >= 3 && x.Index == k-3)
+				}
+			}
+			if okField {
+				r.OK("C14.R7", FuncID(fn), construct, p.Pos(call.Pos()), "taken from package time's accessor for the parameter", true)
+			} else {
+				r.Bad("C14.R7", FuncID(fn), construct, p.Pos(call.Pos()), "UNDECIDED: the "+names[k]+" field of the written date is "+exprName(v)+", not package time's "+names[k]+"() (or Date()/Clock()) of the time being written: hand-written calendar arithmetic is not decided here (seconds-of-day by % on Unix time is negative before 1970)")
+			}
+		}
+	})
+	if !decided {
+		r.Note("C14.R7: DateString has no Sprintf with six fields (a time layout is decided by R1)")
 	}
 }
